@@ -52,7 +52,7 @@ func widen(b []byte) []int32 {
 }
 
 func checkC17(c *Ctx) {
-	c.rule = "byte strings = characters of width 2/3/4 straddling every 4096-byte block boundary at every split offset, boundary sizes, BOM variants, legitimate U+FFFD, every single-byte corruption (overwrite 0x80/0xC0/0xF8/0xFF, delete, truncate) of small valid programs, overlong/surrogate encodings, GBK text; each through FileStream.ReadAll, ByteStream.ReadAll, chunked Read(n) for n in 1..17 and random n, FileStream.ReadAll over a named pipe whose writer pauses at chosen offsets (after the BOM, inside characters), the same marker programs as the SourceCode field of a playground request (raw body bytes), and end-to-end LoadFile+Execute of marker programs (as the main file and as an imported module: directly, in a sub-directory, behind a relay module), among them valid files with 22 unusual characters (U+0000, controls, U+2028, U+FEFF, noncharacters, …) in a literal / a comment / between statements / at a line start / at the end: rejected as a whole or run completely. and 8 goroutines that load and run different multi-block files (each with a module) at the same time under the race detector. Oracle: unicode/utf8 (Valid + []rune). distinct_nontrivial = distinct (case family, validity, reader mode) x byte-level shape hashes with at least one multi-byte character or corruption"
+	c.rule = "byte strings = characters of width 2/3/4 straddling every 4096-byte block boundary at every split offset, boundary sizes, BOM variants, legitimate U+FFFD, every single-byte corruption (overwrite 0x80/0xC0/0xF8/0xFF, delete, truncate) of small valid programs, overlong/surrogate encodings, GBK text; each through FileStream.ReadAll, ByteStream.ReadAll, chunked Read(n) for n in 1..17 and random n, FileStream.ReadAll over a named pipe whose writer pauses at chosen offsets (after the BOM, inside characters) or trickles a few hundred bytes one or two at a time, the same marker programs as the SourceCode field of a playground request (raw body bytes), and end-to-end LoadFile+Execute of marker programs (as the main file and as an imported module: directly, in a sub-directory, behind a relay module), among them valid files with 22 unusual characters (U+0000, controls, U+2028, U+FEFF, noncharacters, …) in a literal / a comment / between statements / at a line start / at the end: rejected as a whole or run completely. and 8 goroutines that load and run different multi-block files (each with a module) at the same time under the race detector. Oracle: unicode/utf8 (Valid + []rune). distinct_nontrivial = distinct (case family, validity, reader mode) x byte-level shape hashes with at least one multi-byte character or corruption"
 	c.assumptions = []string{"Go's unicode/utf8 is the reference decoder", "a leading BOM is judged only for FileStream (source files); ByteStream may keep or drop it"}
 	rng := c.Rand("c17")
 	cases := []c17Case{}
@@ -192,6 +192,31 @@ func checkC17(c *Ctx) {
 		}
 		for _, cs := range cutSets {
 			jobs = append(jobs, job{ci, "fifo", 0, cs})
+			nf++
+		}
+	}
+	// … and a writer that delivers a few hundred bytes one (or two) at a time: hundreds of reads in a
+	// row complete no character, the file still has to be decoded to its last character
+	{
+		texts := map[string]string{
+			"trickle/cjk-80":      "令甲 = “" + strings.Repeat("字", 80) + "”\n输出甲\n",
+			"trickle/emoji-60":    "令甲 = “" + strings.Repeat("😀", 60) + "”\n输出甲\n",
+			"trickle/mixed-bom":   "\xEF\xBB\xBF" + strings.Repeat("é字😀a", 40) + "\n",
+			"trickle/cjk-200-by2": strings.Repeat("中文", 100) + "\n",
+			"trickle/invalid-tail": strings.Repeat("字", 70) + "\xE4\xB8",
+		}
+		for _, name := range SortedKeys(texts) {
+			d := []byte(texts[name])
+			add(name, d)
+			step := 1
+			if strings.HasSuffix(name, "by2") {
+				step = 2
+			}
+			cs := []int{}
+			for p := step; p < len(d); p += step {
+				cs = append(cs, p)
+			}
+			jobs = append(jobs, job{len(cases) - 1, "fifo", 2, cs})
 			nf++
 		}
 	}
